@@ -58,16 +58,19 @@ def tdm_script(rng, with_params=False, with_loop=False):
         for _ in range(rng.randint(0, 3)):
             r = rng.random()
             if names and r < 0.5:
-                args.append(rng.choice(names))
+                # unusual but valid spellings of the reference: bracketed, with a unary plus
+                args.append(rng.choice(["%s", "%s", "%s", "(%s)", "+%s", "+(%s)", "((%s))"]) % rng.choice(names))
             elif others and r < 0.7:
                 args.append(rng.choice(others))
+            elif r < 0.75:
+                args.append(rng.choice(['"p0_shift"', '"p1x"', '"p"', '"p0 "', '"xp0"', '"P0"']))      # strings that only look like p-names stay strings
             elif with_params and r < 0.85:
                 args.append("{%s}" % rng.choice(["a", "phi", "p", "p0x"]))
             else:
                 args.append(elem(rng, "float"))
         kws = []
         if rng.random() < 0.4:
-            kws.append("%s=%s" % (rng.choice(["phi", "r", "select"]), rng.choice(names) if names and rng.random() < 0.6 else elem(rng, "float")))
+            kws.append("%s=%s" % (rng.choice(["phi", "r", "select"]), rng.choice(["%s", "%s", "(%s)", "+%s"]) % rng.choice(names) if names and rng.random() < 0.6 else elem(rng, "float")))
         body = ", ".join(args + kws)
         op = rng.choice(["Sgate", "BSgate", "Rgate", "MeasureHomodyne", "Dgate"])
         modes = rng.choice(["1", "[0, 1]", "0", "(1)"])
